@@ -41,6 +41,11 @@ Inductive expr :=
 | EAssign (x : string) (r : expr)      (* x = r   (identifier targets only) *)
 | ECall (f : expr) (args : elist)      (* f(args) *)
 | EFun (ps : list string) (body : stmt) (* anonymous function expression *)
+| EOp (o : string) (extra : list string) (args : elist)
+    (* a strict operator / constructor applied to its operands, evaluated left to right: binary < > <= >= == === != !==
+       - * / %, unary ! neg typeof, null (no operand), array literal "arr", object literal "obj" (extra = the keys),
+       regular-expression literal "regex" (extra = its text), "throw" (the operand of a throw statement) *)
+| ELogic (isand : bool) (a b : expr)   (* a && b / a || b *)
 with elist := ENil | ECons (e : expr) (r : elist)
 with stmt :=
 | SSkip
@@ -50,7 +55,9 @@ with stmt :=
 | SExpr (e : expr)
 | SRet (e : expr)
 | SIf (c : expr) (t f : stmt)          (* if (c) { t } else { f } *)
-| SFun (name : string) (ps : list string) (body : stmt).   (* function name(ps) { body } *)
+| SFun (name : string) (ps : list string) (body : stmt)    (* function name(ps) { body } *)
+| SFunE (x : string) (ps : list string) (body : stmt)     (* var x = function(ps) { body }; *)
+| SFor (init : stmt) (c : expr) (u : expr) (body : stmt). (* for (init; c; u) { body }   (while: init = SSkip) *)
 
 Definition mem (x : string) (l : list string) : bool := existsb (String.eqb x) l.
 Definition remove_all (x : string) (l : list string) : list string := filter (fun y => negb (String.eqb x y)) l.
@@ -164,6 +171,8 @@ Fixpoint walk_e (e : expr) (w : wst) : wres :=
   | EAssign x r => wbind (enter_assign x r w) (walk_e r)
   | ECall f args => wbind (walk_e f w) (walk_l args)
   | EFun ps body => walk_s body w
+  | EOp _ _ args => walk_l args w
+  | ELogic _ a b => wbind (walk_e a w) (walk_e b)
   end
 with walk_l (l : elist) (w : wst) : wres :=
   match l with ENil => WOk w | ECons e r => wbind (walk_e e w) (walk_l r) end
@@ -175,6 +184,9 @@ with walk_s (s : stmt) (w : wst) : wres :=
   | SIf c t f => wbind (walk_e c w) (fun w => wbind (walk_s t w) (walk_s f))
   | SFun _ ps body =>
       wbind (walk_s body (enter_fundecl ps w)) (fun w => WOk (set_nm (delete_scope (nm w)) w))
+  | SFunE _ _ body => walk_s body w       (* a FunctionExpression in an initialiser: no listener event, no scope *)
+  | SFor init c u body =>
+      wbind (walk_s init w) (fun w => wbind (walk_e c w) (fun w => wbind (walk_e u w) (walk_s body)))
   end.
 
 Definition w_init : wst := {| nm := names_init; dp := [] |}.
@@ -248,7 +260,9 @@ Inductive val :=
 | VUndef | VNum (n : N) | VStr (s : string) | VBool (b : bool)
 | VInp                                              (* the inputs object itself *)
 | VObj (fs : list (string * string))                (* an object stored in inputs; its fields hold strings *)
-| VClos (env : list (string * nat)) (ps : list string) (body : stmt).
+| VClos (env : list (string * nat)) (ps : list string) (body : stmt)
+| VNull
+| VOpaque.                                           (* an array / object / regexp built by the expression itself *)
 
 Definition val_of_ival (i : ival) : val :=
   match i with IStr s => VStr s | INum n => VNum n | IBool b => VBool b | IObj fs => VObj fs end.
@@ -277,7 +291,7 @@ Fixpoint set_nth (n : nat) (v : val) (l : list val) : list val :=
 
 Definition truthy (v : val) : bool :=
   match v with
-  | VUndef => false | VNum n => negb (N.eqb n 0) | VStr s => negb (String.eqb s "") | VBool b => b
+  | VUndef | VNull => false | VNum n => negb (N.eqb n 0) | VStr s => negb (String.eqb s "") | VBool b => b
   | _ => true
   end.
 
@@ -287,7 +301,7 @@ Section Eval.
   Definition get_prop (v : val) (k : string) (s : st) : res val :=
     match v with
     | VInp => Ok (match assoc k inp with Some i => val_of_ival i | None => VUndef end) (fst s, k :: snd s)
-    | VUndef => Throw s
+    | VUndef | VNull => Throw s
     | VStr x => if String.eqb k "length" then Ok (VNum (N.of_nat (String.length x))) s
                 else if all_digits k then Unsup            (* a character of the string: outside the model *)
                 else Ok VUndef s                            (* (prototype methods are not in the generator's pool) *)
@@ -308,7 +322,8 @@ Section Eval.
     | VBool b => Some (if b then "true" else "false")
     | VUndef => Some "undefined"
     | VInp | VObj _ => Some "[object Object]"
-    | VClos _ _ _ => None
+    | VNull => Some "null"
+    | VClos _ _ _ | VOpaque => None
     end.
   Definition add_val (a b : val) : option val :=
     match a, b with
@@ -324,9 +339,76 @@ Section Eval.
   Fixpoint hoist_vars (s : stmt) : list string :=
     match s with
     | SSeq a b => hoist_vars a ++ hoist_vars b
-    | SVar x | SVarI x _ => [x]
+    | SVar x | SVarI x _ | SFunE x _ _ => [x]
     | SIf _ t f => hoist_vars t ++ hoist_vars f
+    | SFor init _ _ body => hoist_vars init ++ hoist_vars body
     | _ => []
+    end.
+
+  (* strict operators; None = outside the model (then the whole evaluation answers Unsup).  The result is never the
+     inputs object and never a function. *)
+  Definition cmp_num (o : string) (x y : N) : option bool :=
+    if String.eqb o "<" then Some (N.ltb x y) else if String.eqb o ">" then Some (N.ltb y x)
+    else if String.eqb o "<=" then Some (N.leb x y) else if String.eqb o ">=" then Some (N.leb y x)
+    else None.
+  Definition is_eq_op (o : string) : option bool :=       (* Some true: equality, Some false: inequality *)
+    if String.eqb o "==" || String.eqb o "===" then Some true
+    else if String.eqb o "!=" || String.eqb o "!==" then Some false else None.
+  Definition nullish (v : val) : bool := match v with VUndef | VNull => true | _ => false end.
+  Definition prim_eq (strict : bool) (a b : val) : option bool :=
+    match a, b with
+    | VNum x, VNum y => Some (N.eqb x y)
+    | VStr x, VStr y => Some (String.eqb x y)
+    | VBool x, VBool y => Some (Bool.eqb x y)
+    | VUndef, VUndef | VNull, VNull => Some true
+    | VUndef, VNull | VNull, VUndef => Some (negb strict)
+    | (VUndef | VNull), (VNum _ | VStr _ | VBool _ | VInp | VObj _ | VOpaque)
+    | (VNum _ | VStr _ | VBool _ | VInp | VObj _ | VOpaque), (VUndef | VNull) => Some false
+    | _, _ => None
+    end.
+  Definition type_of (v : val) : string :=
+    match v with
+    | VUndef => "undefined" | VNum _ => "number" | VStr _ => "string" | VBool _ => "boolean"
+    | VClos _ _ _ => "function" | _ => "object"
+    end.
+  Definition raw_op (o : string) (vs : list val) : option val :=
+    match vs with
+    | [] => if String.eqb o "null" then Some VNull
+            else if String.eqb o "regex" || String.eqb o "arr" || String.eqb o "obj" then Some VOpaque else None
+    | [a] => if String.eqb o "!" then Some (VBool (negb (truthy a)))
+             else if String.eqb o "typeof" then Some (VStr (type_of a))
+             else if String.eqb o "arr" || String.eqb o "obj" then Some VOpaque else None
+    | [a; b] =>
+        if String.eqb o "arr" || String.eqb o "obj" then Some VOpaque else
+        match is_eq_op o with
+        | Some pos => match prim_eq (String.eqb o "===" || String.eqb o "!==") a b with
+                      | Some r => Some (VBool (if pos then r else negb r)) | None => None end
+        | None =>
+            match a, b with
+            | VNum x, VNum y =>
+                match cmp_num o x y with
+                | Some r => Some (VBool r)
+                | None => if String.eqb o "*" then Some (VNum (x * y))
+                          else if String.eqb o "-" then (if N.leb y x then Some (VNum (x - y)) else None)
+                          else None
+                end
+            | _, _ => None
+            end
+        end
+    | _ => if String.eqb o "arr" || String.eqb o "obj" then Some VOpaque else None
+    end.
+  Definition op_val (o : string) (vs : list val) : option val :=
+    match raw_op o vs with
+    | Some VInp | Some (VClos _ _ _) => None
+    | r => r
+    end.
+  (* native methods on a receiver that is not the inputs object; None = outside the model *)
+  Definition meth_val (v : val) (m : string) (vs : list val) : option val :=
+    match v, vs with
+    | VStr x, [VStr y] => if String.eqb m "concat" then Some (VStr (x ++ y)) else None
+    | VStr x, [] => if String.eqb m "toString" then Some (VStr x) else None
+    | VNum n, [] => if String.eqb m "toString" then Some (VStr (dec n)) else None
+    | _, _ => None
     end.
   (* function declarations among the top-level statements of a body *)
   Fixpoint hoist_funs (s : stmt) : list (string * (list string * stmt)) :=
@@ -382,7 +464,7 @@ Section Eval.
           bind (eval_e n env e1 s) (fun v s =>
           bind (eval_e n env k s) (fun kv s =>
             match v with
-            | VUndef => Throw s
+            | VUndef | VNull => Throw s
             | _ => match to_key kv with Some key => get_prop v key s | None => Unsup end
             end))
       | EAdd a b =>
@@ -398,6 +480,15 @@ Section Eval.
             | Some l => Ok v (set_nth l v (fst s), snd s)
             | None => Throw s
             end)
+      | ECall (EDot r m) args =>                 (* method call: the receiver is not looked up as an inputs field read
+                                                    unless it is the inputs object itself, which is outside the model *)
+          bind (eval_e n env r s) (fun v s =>
+          bind (eval_l n env args s) (fun vs s =>
+            match v with
+            | VUndef | VNull => Throw s
+            | VInp | VClos _ _ _ => Unsup
+            | _ => match meth_val v m vs with Some x => Ok x s | None => Unsup end
+            end))
       | ECall f args =>
           bind (eval_e n env f s) (fun vf s =>
           bind (eval_l n env args s) (fun vs s =>
@@ -409,6 +500,11 @@ Section Eval.
             | _ => Throw s
             end))
       | EFun ps body => Ok (VClos env ps body) s
+      | EOp o _ args =>
+          bind (eval_l n env args s) (fun vs s => match op_val o vs with Some v => Ok v s | None => Unsup end)
+      | ELogic isand a b =>
+          bind (eval_e n env a s) (fun va s =>
+            if (if isand then truthy va else negb (truthy va)) then eval_e n env b s else Ok va s)
       end
     end
   with eval_l (n : nat) (env : list (string * nat)) (l : elist) (s : st) {struct n} : res (list val) :=
@@ -436,6 +532,25 @@ Section Eval.
       | SExpr e => bind (eval_e n env e s) (fun _ s => Ok CNormal s)
       | SRet e => bind (eval_e n env e s) (fun v s => Ok (CRet v) s)
       | SIf c t f => bind (eval_e n env c s) (fun vc s => if truthy vc then exec n env t s else exec n env f s)
+      | SFunE x ps body =>
+          match assoc x env with
+          | Some l => Ok CNormal (set_nth l (VClos env ps body) (fst s), snd s)
+          | None => Throw s
+          end
+      | SFor init c u body =>
+          bind (exec n env init s) (fun r s =>
+            match r with
+            | CRet v => Ok (CRet v) s
+            | CNormal =>
+                bind (eval_e n env c s) (fun vc s =>
+                  if truthy vc then
+                    bind (exec n env body s) (fun r s =>
+                      match r with
+                      | CRet v => Ok (CRet v) s
+                      | CNormal => bind (eval_e n env u s) (fun _ s => exec n env (SFor SSkip c u body) s)
+                      end)
+                  else Ok CNormal s)
+            end)
       end
     end.
 
@@ -480,6 +595,7 @@ Fixpoint may_inp (e : expr) : bool :=
   | ECond _ a b => may_inp a || may_inp b
   | EAssign _ r => may_inp r
   | ECall _ _ => true
+  | ELogic _ a b => may_inp a || may_inp b
   | _ => false
   end.
 
@@ -512,7 +628,7 @@ Fixpoint ok_e (br : bool) (e : expr) : bool :=
       | Some y => negb br || String.eqb y "inputs"          (* in a branch an alias is only (re)bound to inputs itself *)
       | None => negb (may_inp r) && ok_e br r
       end
-  | ECall _ _ | EFun _ _ => false
+  | ECall _ _ | EFun _ _ | EOp _ _ _ | ELogic _ _ _ => false
   end.
 
 Fixpoint ok_s (br : bool) (s : stmt) : bool :=
@@ -522,7 +638,7 @@ Fixpoint ok_s (br : bool) (s : stmt) : bool :=
   | SVarI _ e => negb (may_inp e) && ok_e br e             (* initialisers are invisible to the listener *)
   | SExpr e | SRet e => ok_e br e
   | SIf c t f => ok_e br c && ok_s true t && ok_s true f
-  | SFun _ _ _ => false
+  | SFun _ _ _ | SFunE _ _ _ | SFor _ _ _ _ => false
   end.
 
 Definition in_fragment (body : stmt) : bool := ok_s false body.
@@ -539,6 +655,7 @@ Fixpoint may_inpB (L : list string) (e : expr) : bool :=
   | EParen e1 => may_inpB L e1
   | ECond _ a b => may_inpB L a || may_inpB L b
   | EAssign _ r => may_inpB L r
+  | ELogic _ a b => may_inpB L a || may_inpB L b
   | _ => false
   end.
 
@@ -557,8 +674,15 @@ Fixpoint okb_e (L : list string) (e : expr) : bool :=
   | ECond c a b => okb_e L c && okb_e L a && okb_e L b
   | EParen e1 => okb_e L e1
   | EAssign x r => mem x L && okb_e L r && negb (may_inpB L r)
-  | ECall f args => (match get_name f with Some _ => true | None => false end) && okb_l L args
+  | ECall f args =>
+      (match f with
+       | EId _ => true
+       | EDot r _ => okb_e L f && negb (may_inpB L r)       (* a method call on a receiver that is not the inputs object *)
+       | _ => false
+       end) && okb_l L args
   | EFun _ _ => false
+  | EOp _ _ args => okb_l L args                            (* operands are never the inputs object itself *)
+  | ELogic _ a b => okb_e L a && okb_e L b
   end
 with okb_l (L : list string) (l : elist) : bool :=
   match l with
@@ -577,6 +701,9 @@ Fixpoint okb_s (top : bool) (L : list string) (s : stmt) : bool :=
   | SIf c t f => okb_e L c && okb_s false L t && okb_s false L f
   | SFun _ ps body =>
       top && okb_s false (ps ++ hoist_vars body) body && negb (mem "inputs" (ps ++ hoist_vars body))
+  | SFunE x ps body =>
+      top && mem x L && okb_s false (ps ++ hoist_vars body) body && negb (mem "inputs" (ps ++ hoist_vars body))
+  | SFor init c u body => okb_s false L init && okb_e L c && okb_e L u && okb_s false L body
   end.
 
 Definition in_fragmentF (lib body : stmt) : bool :=
@@ -597,6 +724,8 @@ Fixpoint ad_e (e : expr) : list string :=
   | EAssign _ r => ad_e r
   | ECall f args => ad_e f ++ ad_l args
   | EFun _ body => ad_s body
+  | EOp _ _ args => ad_l args
+  | ELogic _ a b => ad_e a ++ ad_e b
   end
 with ad_l (l : elist) : list string :=
   match l with ENil => [] | ECons e r => ad_e e ++ ad_l r end
@@ -606,7 +735,8 @@ with ad_s (s : stmt) : list string :=
   | SSeq a b => ad_s a ++ ad_s b
   | SVarI _ e | SExpr e | SRet e => ad_e e
   | SIf c t f => ad_e c ++ ad_s t ++ ad_s f
-  | SFun _ _ body => ad_s body
+  | SFun _ _ body | SFunE _ _ body => ad_s body
+  | SFor init c u body => ad_s init ++ ad_e c ++ ad_e u ++ ad_s body
   end.
 
 (* ------------------------------------------------------------------------------------------------ *)
@@ -622,6 +752,7 @@ Fixpoint may_inpT (A : list string) (e : expr) : bool :=
   | EParen e1 => may_inpT A e1
   | ECond _ a b => may_inpT A a || may_inpT A b
   | EAssign _ r => may_inpT A r
+  | ELogic _ a b => may_inpT A a || may_inpT A b
   | _ => false
   end.
 
@@ -648,8 +779,15 @@ Fixpoint okt_e (br : bool) (A : list string) (e : expr) : bool :=
       | Some y => if mem x A then negb br || String.eqb y "inputs" else negb (mem y A)
       | None => negb (may_inpT A r)
       end
-  | ECall f args => (match get_name f with Some _ => true | None => false end) && okt_l br A args
+  | ECall f args =>
+      (match f with
+       | EId _ => true
+       | EDot r _ => okt_e br A f && negb (may_inpT A r)
+       | _ => false
+       end) && okt_l br A args
   | EFun _ _ => false
+  | EOp _ _ args => okt_l br A args
+  | ELogic _ a b => okt_e br A a && okt_e true A b            (* b may be skipped: treated like a branch *)
   end
 with okt_l (br : bool) (A : list string) (l : elist) : bool :=
   match l with
@@ -667,6 +805,10 @@ Fixpoint okt_s (br : bool) (A : list string) (s : stmt) : bool :=
   | SFun _ ps body =>
       negb br && okb_s false (ps ++ hoist_vars body) body && negb (mem "inputs" (ps ++ hoist_vars body)) &&
       forallb (fun x => negb (mem x A)) (ps ++ hoist_vars body)
+  | SFunE x ps body =>
+      negb br && negb (mem x A) && okb_s false (ps ++ hoist_vars body) body &&
+      negb (mem "inputs" (ps ++ hoist_vars body)) && forallb (fun x => negb (mem x A)) (ps ++ hoist_vars body)
+  | SFor _ _ _ _ => false                                     (* loops: only in the alias-free fragment of section 5 *)
   end.
 
 (* fields read by the declared functions *)
@@ -674,7 +816,7 @@ Fixpoint fd_s (s : stmt) : list string :=
   match s with
   | SSeq a b => fd_s a ++ fd_s b
   | SIf _ t f => fd_s t ++ fd_s f
-  | SFun _ _ body => ad_s body
+  | SFun _ _ body | SFunE _ _ body => ad_s body
   | _ => []
   end.
 
@@ -687,6 +829,8 @@ Fixpoint asg_e (e : expr) : list (string * string) :=
   | ECond c a b => asg_e c ++ asg_e a ++ asg_e b
   | EAssign x r => (match r with EId y => [(x, y)] | _ => [] end) ++ asg_e r
   | ECall f args => asg_e f ++ asg_l args
+  | EOp _ _ args => asg_l args
+  | ELogic _ a b => asg_e a ++ asg_e b
   | _ => []
   end
 with asg_l (l : elist) : list (string * string) :=
